@@ -420,6 +420,12 @@ fn build(tier: Tier) -> Vec<Scenario> {
             out.push(s);
         }
     }
+    // the streaming source: one end of iteration whatever the moment its channel is closed
+    for (n, late) in [(0usize, false), (2, false), (2, true), (4, true)] {
+        out.push(crate::props::c15::channel_source_scenario("C05", n, 2, if tier == Tier::Quick { 1 } else { 2 }, late));
+    }
+    // slow sources and timed batching: markers must not overtake buffered data on any link
+    out.extend(crate::props::timed::scenarios("C05", tier == Tier::Quick, "C05"));
     out
 }
 
